@@ -40,7 +40,8 @@ def ingest_race(args):
         L += ["thread w tx t1 begin", "thread w tx t1 put h0 64 04", "thread w tx t1 commit &"]
     else:
         L += ["thread w %s &" % w]
-    L += ["sleep 250", "release ingest.finish.locked", "sleep 350", "put h1 73 13", "dump", "reopen", "dump", "reopen", "dump"]
+    # after the release: a synchronous no-op on each thread is a barrier (threads run their queues in order)
+    L += ["sleep 250", "release ingest.finish.locked", "thread i has - h1 00", "thread w has - h1 00", "put h1 73 13", "dump", "reopen", "dump", "reopen", "dump"]
     prog = "\n".join(L) + "\n"
     o, raw, rc = run_fjv(prog, env_extra={"FJV_SYNC_TIMEOUT_MS": "5000"}, timeout=60)
     n = len(L)
@@ -90,7 +91,7 @@ def sealed_journal_history(variant):
 
 
 def run(rep, tier, seed, build):
-    from common import pmap, proof_audit
+    from common import pmap, proof_audit, pmap_confirm
     obl, dis, pproblems = proof_audit("props/C04.v", THEOREMS, build["coq"])
     sj = [x for x in pmap(sealed_journal_history, [seed % 4, (seed + 1) % 4] if tier == "quick" else [0, 1, 2, 3], workers=4) if x]
     for msg, prog in sj[:1]:
@@ -102,7 +103,7 @@ def run(rep, tier, seed, build):
              for pre in ("mem", "flushed") if not (m == "plain" and w == "tx")]
     if tier == "quick":
         races = [x for i, x in enumerate(races) if (i + seed) % 3 == 0 or x[:2] == ("plain", "put")]
-    rr = pmap(ingest_race, races, workers=8)
+    rr, unconf = pmap_confirm(ingest_race, races, lambda x: bool(x["problems"]), workers=8)
     for x in [x for x in rr if x["problems"]][:2]:
         rep.violation("# C04: writer racing with a bulk ingestion that holds the journal lock: %s\n%s" % (x["problems"][0], x["prog"]))
     st = res["stats"]
@@ -114,7 +115,7 @@ def run(rep, tier, seed, build):
                              "(scans + point reads) at the end; compared between implementation, model(as_is), oracle(ideal); "
                              "non-trivial = >= 4 distinct operation kinds, distinct by operation-kind sequence",
                         samples=[progs[0].splitlines()[:14]], op_histogram=dict(res["ophist"]),
-                        known_finding_programs=st["known_finding_programs"], ingest_race_schedules=len(rr), sealed_journal_histories=2 if tier == "quick" else 4,
+                        known_finding_programs=st["known_finding_programs"], ingest_race_schedules=len(rr), unconfirmed_alarms=unconf, sealed_journal_histories=2 if tier == "quick" else 4,
                         correspondence_failures=st.get("correspondence_failures", 0),
                         partial_theorems=THEOREMS, partial_theorems_discharged=dis, partial_theorem_problems=pproblems)
     if pproblems and not rep.violations:
